@@ -37,7 +37,7 @@ ASSUMPTIONS = ["heap memory after failures is covered by C12 (heap statistics); 
 KERNEL_SAMPLE = {"quick": 40, "thorough": 300}
 KERNEL_MAXLEN = 1500
 TRUSTED_BASE = ["lib/props/vmgen.py result-line parsers; lib/props/c07.py tree-language interpreter (completed effects)"]
-MANIFEST_PENDING = dict(
+MANIFEST = dict(
     text="Coq theorems over the hand-written model of run.rs/mod.rs (after fixes f6f5af0 and 9a27905): whatever instruction fails at whatever depth, inside or outside a continuation, the machine exits with sp=0, bp=0, ep and acc reset, every stack slot wiped, and heap/globals/output exactly those at the failing instruction (completed effects only); a completed evaluation wipes the stack too; a read/compile failure reports no stack trace. Tied to /repo by session pairs with a failure injected at every node position of generated programs (seven error kinds, top level / call depth / continuation extents / re-entry, k in {1,2,10,1000} repetitions): implementation = extracted model = vm_compute on value, failure, sp, bp, stack capacity and trace length after every datum, and the cross-case oracle 'session with failures = session with only their completed effects' on the implementation itself.",
     design="DESIGN.md section 5 C07",
     note="Trusted: Coq kernel; hand-written model tied by sampling correspondence (temporary small builtin table); Rust harness + sp/bp/capacity accessors (cfg marwood_verif, read-only); Python tree-language interpreter that predicts completed effects. Heap memory growth under repeated failures is C12's concern. Axioms: the four standard-library axioms of Coq's Reals inherited through Flocq's binary64 in the number type of the machine state.",
